@@ -40,6 +40,7 @@ class Check:
         self.assumptions = []
         self.cov = {}
         self.seed = int(os.environ.get("VERIF_SEED", "0") or 0)
+        self.tag = ""
 
     # an obligation = one instance of a rule evaluated on one construct
     def ob(self, ok, key=None, msg=None, detail=None, sample=None):
@@ -57,7 +58,7 @@ class Check:
         if key in self.seen:
             return
         self.seen.add(key)
-        self.violations.append((key, msg, detail))
+        self.violations.append((key, (self.tag + msg) if self.tag and msg else msg, detail))
 
     def note(self, s):
         self.notes.append(s)
